@@ -283,7 +283,8 @@ func RunC09(c *core.Ctx) {
 	// every hostile class at least once on its own, in a fixed context (a canary subscribed and publishing around it)
 	classes := []string{"type0", "type15", "oversize", "len5", "strlen", "garbage", "empty-connect", "empty-connack", "empty-publish", "empty-puback", "empty-subscribe",
 		"empty-suback", "empty-unsubscribe", "empty-unsuback", "empty-pubrel", "short-connect", "sub-last-huge", "sub-last-max", "history-last-huge", "keygen-illtyped",
-		"presence-illtyped", "link-longname", "pub-ttl-huge", "pub-window-extreme", "api-unknown", "ping-flood", "pub-many-options"}
+		"presence-illtyped", "link-longname", "pub-ttl-huge", "pub-window-extreme", "api-unknown", "ping-flood", "pub-many-options",
+		"sub-deep", "sub-plus-deep", "sub-mixed-deep", "sub-many-topics", "sub-long-level", "pub-deep", "presence-plus-deep", "sub-deep-drop", "sub-plus-deep-drop"}
 	mk := func(s string) json.RawMessage { return json.RawMessage(s) }
 	for i, cls := range classes {
 		walk := []json.RawMessage{
@@ -347,7 +348,7 @@ func RunC09(c *core.Ctx) {
 			if r.Index > 0 {
 				prev = string(r.Trace.Events[r.Index-1])
 			}
-			if strings.Contains(ev, `"e":"broker-died"`) && lastHostile(r.Trace) == "" && !strings.Contains(strings.Join(evStrings(r.Trace), ""), `"e":"cluster"`) {
+			if strings.Contains(ev, `"e":"broker-died"`) && lastHostile(r.Trace) == "" && !strings.Contains(ev, "hostile") && !strings.Contains(strings.Join(evStrings(r.Trace), ""), `"e":"cluster"`) {
 				core.Fatalf("the broker child process died before any hostile step of %s: %s", r.Trace.Label, ev[:min(len(ev), 600)])
 			}
 			tag := classify(ev, prev, r.Trace)
